@@ -9,6 +9,7 @@ package retention
 
 //@ func DoRetentionBasedDeletion
 //@   props C14
+//@   requires [configured-retention-is-sane] retentionHours >= 0 && retentionHours <= 1000000
 //@   site call append #1:
 //@     assert [metrics-tenant] allMetricMetas[i].OrgId == orgid
 //@   site call append #2:
@@ -77,4 +78,15 @@ package retention
 //@     assert [a-metrics-victim-fits-into-what-is-left-to-free] entry.BytesReceivedCount < volumeToDeleteInBytes
 //@   site mapupdate segmentsToDelete[entry.SegmentKey] #1:
 //@     assert [a-log-victim-fits-into-what-is-left-to-free] entry.BytesReceivedCount < volumeToDeleteInBytes
+//@ end
+
+// C14 (a segment is expired iff its newest event is older than the retention):
+// the horizon is exactly retentionHours hours of ELAPSED time before now —
+// 3 600 000 ms per hour, independent of the process time zone and of any
+// daylight-saving change inside the window.
+//@ func GetRetentionTimeMs
+//@   props C14
+//@   mode int
+//@   requires retentionHours >= 0 && retentionHours <= 1000000
+//@   ensures [horizon-is-now-minus-the-retention-in-elapsed-milliseconds] result == uint64(uf("unixMs", int64, currTime.wall, currTime.ext) - int64(retentionHours) * 3600000)
 //@ end
